@@ -269,7 +269,24 @@ func (h *hgen) closures() {
 func (h *hgen) scenario() {
 	h.scn++
 	callee, caller, mut := fmt.Sprintf("sc%d", h.scn), fmt.Sprintf("sk%d", h.scn), fmt.Sprintf("sm%d", h.scn)
-	dep := h.pick([]string{"callee", "global", "constant"}, "dep")
+	dep := h.pick([]string{"callee", "global", "constant", "failing-callee", "many-arguments"}, "dep")
+	if dep == "many-arguments" {
+		// more arguments than the cache key holds: calls agreeing on the first ones
+		h.add(fmt.Sprintf("%s = (a, b, c, d, e, f) => { println(\"w\", e); a + b + c + d + e * 10 + f * 100 }", caller), true)
+		h.add(fmt.Sprintf("%s = (a, ..) => a + len(..)", callee), true)
+		for i := rapid.IntRange(3, 8).Draw(h.t, "wcalls"); i > 0; i-- {
+			var c string
+			if rapid.Bool().Draw(h.t, "wvariadic") {
+				c = fmt.Sprintf("println(%s(100%s))", callee, strings.Repeat(", 1", rapid.IntRange(2, 6).Draw(h.t, "nextra")))
+			} else {
+				c = fmt.Sprintf("println(%s(1, 1, 1, 1, %d, %d))", caller, rapid.IntRange(1, 2).Draw(h.t, "e"), rapid.IntRange(1, 2).Draw(h.t, "f"))
+			}
+			h.add(c, false)
+			h.calls = append(h.calls, c)
+		}
+		pbt.Label("history:scenario-more-arguments-than-the-key-holds")
+		return
+	}
 	h.add(fmt.Sprintf("%s = x => x + 1; sg%d = 1; SK%d = 1", callee, h.scn, h.scn), true)
 	switch dep {
 	case "callee":
@@ -286,11 +303,19 @@ func (h *hgen) scenario() {
 			fmt.Sprintf("%s = () => { old = sg%d; sg%d = old + 5; old }", mut, h.scn, h.scn),
 			fmt.Sprintf("%s = () => { sg%d++ }", mut, h.scn),
 		}, "mutform"), true)
+	case "failing-callee":
+		// the callee depends on the global and fails; the caller swallows the failure
+		h.add(fmt.Sprintf("%s = x => { if x > sg%d { error(\"over\") }; x }", callee, h.scn), true)
+		h.add(fmt.Sprintf("%s = x => { r = catch(%s(x)); if r.err { println(\"refused\", x) }; r.err }", caller, callee), true)
+		h.add(h.pick([]string{
+			fmt.Sprintf("%s = () => { sg%d = 10 }", mut, h.scn),
+			fmt.Sprintf("%s = () => { old = sg%d; sg%d = old + 9; old }", mut, h.scn, h.scn),
+		}, "mutform"), true)
 	default:
 		h.add(fmt.Sprintf("%s = x => x + SK%d", caller, h.scn), true)
 		h.add(fmt.Sprintf("%s = () => { old = SK%d; del(SK%d); SK%d = old + 5; old }", mut, h.scn, h.scn, h.scn), true)
 	}
-	call := fmt.Sprintf("println(%s(%s))", caller, h.pick([]string{"1", "2", "0.5"}, "scarg"))
+	call := fmt.Sprintf("println(%s(%s))", caller, h.pick([]string{"1", "2", "0.5", "5"}, "scarg"))
 	h.add(call, false)
 	if rapid.Bool().Draw(h.t, "again") {
 		h.add(call, false)
